@@ -45,6 +45,7 @@ PROPS = {
             "BPT.Props.C16.allocate_fresh",
             "BPT.Props.C16.get_other_none",
             "BPT.Props.C16.release_once",
+            "BPT.Props.C16.release_interrupted_by_default_panic",
             "BPT.Props.C16.counters_exact",
             "BPT.Props.C16.clear_invalidates_all",
             "BPT.Props.C16.compact_keeps_live",
@@ -335,6 +336,7 @@ PROPS = {
         ],
         "ties": PY_TIES,
         "suites": [
+            {"kind": "py", "suite": "py-exh4", "quick": {"cases": 3400, "len": 4}, "thorough": {"cases": 3400, "len": 4}},
             {"kind": "py", "suite": "py-range", "quick": {"cases": 600, "len": 80}, "thorough": {"cases": 2500, "len": 120}},
         ],
         "nontrivial": "a case is non-trivial when the tree grew beyond a single leaf and both an empty and a non-empty bounded scan occurred; endpoints are drawn from present keys, absent keys, below-min / above-max sentinels and None; distinct = distinct op-line sequences",
@@ -354,6 +356,7 @@ PROPS = {
         ],
         "ties": PY_TIES,
         "suites": [
+            {"kind": "py", "suite": "py-exh4", "quick": {"cases": 3400, "len": 4}, "thorough": {"cases": 3400, "len": 4}},
             {"kind": "py", "suite": "py-ops", "quick": {"cases": 400, "len": 80}, "thorough": {"cases": 3000, "len": 120}},
             {"kind": "py", "suite": "py-exh", "quick": {"cases": 648 + 4000, "len": 3}, "thorough": {"cases": 24000 + 40000, "len": 5}},
         ],
